@@ -335,9 +335,6 @@ func runC19(res *lib.Result, tier string, seed int64, args []string) error {
 				caseText := fmt.Sprintf("declaration %s (%s) of %s:\n%s", want, q.cls, f, src)
 				if !found {
 					switch {
-					case !named && q.cls == "member" && strings.Contains(want, ".") && !strings.Contains("\n"+src, "\n"+strings.FieldsFunc(want, func(c rune) bool { return c == '.' || c == ':' })[0]+" = "):
-						res.HitKnown("C19-K3", "a function member added to a global table that is declared in ANOTHER file ('GT = {}' in a.lua, 'function GT.f() end' in b.lua) is missing from the outline of the file that declares the member (the members hang on the table's declaration)", caseText)
-						res.Dist("hit.C19-K3")
 					case named:
 						res.AddViolation("impl-vs-spec", "the outline entry of a declaration does not contain the declaring identifier", caseText, false)
 					default:
